@@ -73,6 +73,12 @@ claims = {
          "contract-based deductive verification: exact guard postconditions and call-site assertions"),
 }
 
+import importlib.util, os
+_spec = importlib.util.spec_from_file_location("claims_extra", os.path.join(os.path.dirname(os.path.abspath(__file__)), "claims_extra.py"))
+_mod = importlib.util.module_from_spec(_spec); _spec.loader.exec_module(_mod)
+claims.update(_mod.claims(TRUST))
+na_reasons_extra = _mod.na_reasons
+
 checks = []
 for p in props:
     pid = p["id"]
@@ -91,7 +97,7 @@ for p in props:
         "technique": tech,
     })
 
-na_reasons = {}
+na_reasons = dict(na_reasons_extra)
 default_reason = "contracts for the functions this property depends on are not completed yet in this framework (see DESIGN.md section 10 for status); not claimed rather than claimed with undischarged obligations"
 not_applicable = [{"property_id": p["id"], "reason": na_reasons.get(p["id"], default_reason)} for p in props if p["id"] not in claims]
 
